@@ -62,6 +62,7 @@ def parts_of(r, total, n):
 
 def campaign(c):
     c.rule = RULE
+    from ..gen import Lib
     n = 1500 if c.quick else 30000
     for i in range(n):
         r = c.rng.fork('c15-%d' % i)
@@ -194,6 +195,36 @@ def campaign(c):
         c.traces_validated += 1
         c.count('helper:%d' % k)
         c.case(key, dict(rep, kind=k) if c.evaluations % 20 == 0 else None)
+    # selector grids: EVERY value of the one-byte selector of a framing helper (TLS content type, DHCP option code) and every named
+    # extension / record type, each with no content at all, empty parts, one byte and a short string: the selector never changes
+    # how the length is computed
+    lib = Lib()
+    named16 = sorted(set(int(x['def']['value']) for x in lib.consts if x['def']['type'] == 'U16' and x['path'].startswith(('tls::ext', 'dns::rtype'))))
+    conts = [[], [b''], [b'', b''], [b'\x01'], [b'', b'ab', b'']]
+    for sel in range(256):
+        for parts in conts:
+            data = b''.join(parts)
+            for fn, kind, args, fld in (('tls::message', 'tlsrecord', ['content=u8:%d' % sel], ('content', 'payload')), ('dhcp::option', 'dhcpopt', ['-=u8:%d' % sel], ('opt', 'data'))):
+                res, req = call_both(c, [[fn] + args + ['-=' + s(p) for p in parts]])
+                b = val_bytes(res[0]); rep = dict(req=req)
+                if b is not None:
+                    f = kv(parse(c, kind, b))
+                    expect(c, fn, f.get(fld[0]) == str(sel) and f.get(fld[1]) == sh_hex(data) and f.get('rest') == '-', '%s with selector %d and content %s: framing wrong' % (fn, sel, [p.hex() for p in parts]), rep)
+        c.case(('selector', sel), dict(kind='selector-grid', selector=sel) if sel % 32 == 20 else None)
+    for sel in named16 + list(range(0, 64)):
+        for parts in conts:
+            data = b''.join(parts)
+            res, req = call_both(c, [['tls::extension', '-=u16:%d' % sel] + ['-=' + s(p) for p in parts]])
+            b = val_bytes(res[0]); rep = dict(req=req)
+            if b is not None:
+                f = kv(parse(c, 'extension', b))
+                expect(c, 'tls::extension', f.get('data') == sh_hex(data) and f.get('ext') == str(sel) and f.get('rest') == '-', 'extension %d with content %s: framing wrong' % (sel, [p.hex() for p in parts]), rep)
+            res, req = call_both(c, [['dns::answer', '-=' + s(b'\x01a\x00'), 'atype=u16:%d' % sel] + ['-=' + s(p) for p in parts]])
+            b = val_bytes(res[0]); rep = dict(req=req)
+            if b is not None:
+                f = kv(parse(c, 'rr:3', b))
+                expect(c, 'dns::answer', f.get('data') == sh_hex(data) and f.get('type') == str(sel) and f.get('rest') == '-', 'RR of type %d with data %s: framing wrong' % (sel, [p.hex() for p in parts]), rep)
+    c.count('selector-grid', 256 * len(conts) * 2 + (len(named16) + 64) * len(conts) * 2)
     c.assumptions += ['hello builders take session id / cipher list / compression as already framed byte strings; the campaign frames them with the library\'s own len_u8 / tls::ciphers']
 
 
